@@ -168,6 +168,80 @@ def showSpec (outs : List Mqtt.Spec.Broker.SOut) : String :=
   let r := specItems outs
   showSpecItems r.1 r.2
 
+/-! ### republishing callbacks (`srvsubrepub <cb> <filter> <qos> <target>`)
+
+The harness's callback `cb` hands every message it gets on to `Server.Publish` (same payload,
+QoS 0, RETAIN 0, topic `target`) from INSIDE the callback, i.e. in the middle of the fan-out that
+called it.  Both streams mirror that: right behind every delivery to such a callback the outputs
+of the nested `srvPub` follow (recursively, bounded by `repubFuel`; the generators keep the
+relation cycle-free: a target never matches a republishing callback's filter).  A QoS 0,
+RETAIN 0 publish changes no state (no identifier is drawn, nothing retained), so performing it on
+the state after the step is the same as performing it in the middle. -/
+
+def repubFuel : Nat := 4
+
+def repubPub (target payload : Bytes) : Pub := { qos := 0, topic := target, payload := payload }
+
+def closeM (rp : List (Nat × Bytes)) : Nat → Mqtt.Model.Broker.B → List Out → Mqtt.Model.Broker.B × List Out
+  | 0, b, outs => (b, outs)
+  | fuel + 1, b, outs =>
+    outs.foldl (fun (acc : Mqtt.Model.Broker.B × List Out) o =>
+      match o with
+      | .call cb p =>
+        match rp.lookup cb with
+        | some target =>
+          -- (the callback ignores what the nested Publish returns)
+          let r := Mqtt.Model.Broker.srvPub acc.1 (repubPub target p.payload)
+          let r2 := closeM rp fuel r.1 (r.2.filter (fun x => x != .apiErr))
+          (r2.1, acc.2 ++ [o] ++ r2.2)
+        | none => (acc.1, acc.2 ++ [o])
+      | _ => (acc.1, acc.2 ++ [o])) (b, [])
+
+/-- one event of the code-shaped model, republishing callbacks included -/
+def stepM (rp : List (Nat × Bytes)) (b : Mqtt.Model.Broker.B) (e : Ev) : Mqtt.Model.Broker.B × List Out :=
+  let r := Mqtt.Model.Broker.step b e
+  if rp.isEmpty then r else closeM rp repubFuel r.1 r.2
+
+open Mqtt.Spec.Broker in
+def closeS (rp : List (Nat × Bytes)) : Nat → S → List SOut → S × List SOut
+  | 0, s, outs => (s, outs)
+  | fuel + 1, s, outs =>
+    outs.foldl (fun (acc : S × List SOut) o =>
+      let nested (payloads : List Bytes) (target : Bytes) : S × List SOut :=
+        payloads.foldl (fun (a : S × List SOut) pl =>
+          let r := accept a.1 (repubPub target pl)
+          let r2 := closeS rp fuel r.1 r.2
+          (r2.1, a.2 ++ r2.2)) (acc.1, [])
+      -- Messages on topics beginning with '$' are outside the properties' quantifier: the reference
+      -- broker forwards and retains them like any other, this broker turns them away at the topic
+      -- store, and the oracle does not compare such copies (props_broker.py `_drop_sys`).  A
+      -- republishing callback of this broker therefore never sees one; nothing is republished for
+      -- them here either.
+      let sys (p : Pub) : Bool := p.topic.head? == some 36
+      match o with
+      | .deliver ow l =>
+        match rp.lookup ow with
+        | some target =>
+          if l.any sys then (acc.1, acc.2 ++ [o]) else
+          -- a callback holding several matching subscriptions is called once or several times: then
+          -- the number of nested publishes is not fixed by the properties
+          if l.length != 1 then (acc.1, acc.2 ++ [o, .unspecified]) else
+          let r := nested (l.map (·.payload)) target
+          (r.1, acc.2 ++ [o] ++ r.2)
+        | none => (acc.1, acc.2 ++ [o])
+      | .retained ow l =>
+        match rp.lookup ow with
+        | some target =>
+          let r := nested ((l.filter (fun p => !sys p)).map (·.payload)) target
+          (r.1, acc.2 ++ [o] ++ r.2)
+        | none => (acc.1, acc.2 ++ [o])
+      | _ => (acc.1, acc.2 ++ [o])) (s, [])
+
+/-- one event of the reference broker, republishing callbacks included -/
+def stepS (rp : List (Nat × Bytes)) (s : Mqtt.Spec.Broker.S) (e : Ev) : Mqtt.Spec.Broker.S × List Mqtt.Spec.Broker.SOut :=
+  let r := Mqtt.Spec.Broker.step s e
+  if rp.isEmpty || specUnspecified r.2 then r else closeS rp repubFuel r.1 r.2
+
 structure St where
   m : Mqtt.Model.Broker.B := {}
   s : Mqtt.Spec.Broker.S := {}
@@ -177,6 +251,8 @@ structure St where
   again (the harness cannot put a PINGREQ barrier on it before): model stream / specification stream -/
   heldM : List (Nat × String) := []
   heldS : List (Nat × String) := []
+  /-- republishing in-process callbacks (`srvsubrepub`): callback ↦ the topic it republishes to -/
+  repub : List (Nat × Bytes) := []
 
 def St.pendOf (st : St) (c : Nat) : Bytes := (st.pend.lookup c).getD []
 def St.setPend (st : St) (c : Nat) (bs : Bytes) : St :=
@@ -229,8 +305,8 @@ def ringSize : Nat := Mqtt.Generated.defaultBufferSize
 /-- the harness's authenticator refuses the user name "deny" -/
 def rawAuth : Mqtt.Model.Framing.Auth := fun user _ => user != some [100, 101, 110, 121]
 
-def stepsModel (b : Mqtt.Model.Broker.B) (evs : List Ev) : Mqtt.Model.Broker.B × List Out :=
-  evs.foldl (fun acc e => let r := Mqtt.Model.Broker.step acc.1 e; (r.1, acc.2 ++ r.2)) (b, [])
+def stepsModel (rp : List (Nat × Bytes)) (b : Mqtt.Model.Broker.B) (evs : List Ev) : Mqtt.Model.Broker.B × List Out :=
+  evs.foldl (fun acc e => let r := stepM rp acc.1 e; (r.1, acc.2 ++ r.2)) (b, [])
 
 open Mqtt.Spec.Broker in
 /-- The reference broker on the events of a byte stream.  Events of a connection the
@@ -238,20 +314,20 @@ specification no longer knows (bytes behind a DISCONNECT) are skipped; for packe
 client has no business sending (acknowledgements of server-to-client requests, a second
 CONNECT) the properties fix nothing about that connection itself — item `?` — but nobody
 else may be affected. -/
-def stepsSpec (s : S) (evs : List Ev) : S × List SOut × List Nat :=
+def stepsSpec (rp : List (Nat × Bytes)) (s : S) (evs : List Ev) : S × List SOut × List Nat :=
   evs.foldl (fun (acc : S × List SOut × List Nat) e =>
     match e with
     | .packet c p =>
       if (getConn acc.1 c).isNone then acc else
       match p with
       | .pingresp | .suback _ _ | .unsuback _ | .connack _ _ | .connectAgain => (acc.1, acc.2.1, acc.2.2 ++ [c])
-      | _ => let r := step acc.1 e; (r.1, acc.2.1 ++ r.2, acc.2.2)
-    | _ => let r := step acc.1 e; (r.1, acc.2.1 ++ r.2, acc.2.2)) (s, [], [])
+      | _ => let r := stepS rp acc.1 e; (r.1, acc.2.1 ++ r.2, acc.2.2)
+    | _ => let r := stepS rp acc.1 e; (r.1, acc.2.1 ++ r.2, acc.2.2)) (s, [], [])
 
 /-- run events on both sides and emit the line; `free`: connections whose own group the specification leaves open -/
 def runRaw (st : St) (c : Nat) (keepConnack : Bool) (evs : List Ev) (pendAfter : Bytes) : St × String × String :=
-  let (m, mo) := stepsModel st.m evs
-  let (s, so, free) := stepsSpec st.s evs
+  let (m, mo) := stepsModel st.repub st.m evs
+  let (s, so, free) := stepsSpec st.repub st.s evs
   let st1 : St := { st with m := m, s := s }
   let st2 := st1.setPend c (if m.alive c then pendAfter else [])
   let (st3, ml, sl) := emit st2 (some c) keepConnack mo so (!evs.isEmpty)
@@ -272,8 +348,8 @@ def handleRace (st : St) (a : Nat) (xa : Option Bytes) (p : Nat) (bp : Bytes) : 
     | some bs => let avail := st.pendOf a ++ bs; Mqtt.Model.Framing.postEvents ringSize a (avail.length + 1) avail
   let (evsP, restP) := Mqtt.Model.Framing.postEvents ringSize p (bp.length + 1) bp
   let evs := evsA ++ evsP
-  let (m, mo) := stepsModel st.m evs
-  let (s, so, free) := stepsSpec st.s evs
+  let (m, mo) := stepsModel st.repub st.m evs
+  let (s, so, free) := stepsSpec st.repub st.s evs
   let st1 : St := { st with m := m, s := s }
   let st2 := (st1.setPend a (if m.alive a then restA else [])).setPend p (if m.alive p then restP else [])
   let (st3, ml, sl) := emit st2 (some a) false mo so (!evsA.isEmpty)
@@ -292,7 +368,7 @@ take effect in order, then the connection ends (unless one of them ended it alre
 def handleRawClose (st : St) (c : Nat) (bs : Bytes) : St × String × String :=
   if !st.m.alive c || st.mid c then (st, "-", "-") else
   let (evs, _) := Mqtt.Model.Framing.postEvents ringSize c (bs.length + 1) bs
-  let alive := (stepsModel st.m evs).1.alive c
+  let alive := (stepsModel st.repub st.m evs).1.alive c
   runRaw st c false (evs ++ (if alive then [Ev.close c] else [])) []
 
 def handleRawFirst (st : St) (c : Nat) (bs : Bytes) (closes : Bool) : St × String × String :=
@@ -305,9 +381,60 @@ def handleRawFirst (st : St) (c : Nat) (bs : Bytes) (closes : Bool) : St × Stri
     let evs := [e1] ++ evs ++ (if accepted && closes then [Ev.close c] else [])
     runRaw st c true evs (if closes then [] else rest')
 
+/-- `unsubrace <a> <p> <pktid> <f1,…,fn> <topic> <payload>`: connection `a` sends one UNSUBSCRIBE for
+all the filters; as soon as its client has received the UNSUBACK connection `p` publishes (QoS 0)
+on `topic`.  Two events in sequence, one output line.  (On the unchanged code the UNSUBACK is
+written after the last filter is gone, so the order is the only one possible; on connections that
+are closed or mid-packet the event is a no-op on both sides.) -/
+def handleUnsubRace (st : St) (a p id : Nat) (fs : List Bytes) (topic payload : Bytes) : St × String × String :=
+  if !st.m.alive a || !st.m.alive p || a == p || st.mid p || st.mid a then (st, "-", "-") else
+  let e1 := Ev.packet a (.unsubscribe id fs)
+  let e2 := Ev.packet p (.publish { qos := 0, topic := topic, payload := payload })
+  let (m1, mo1) := stepM st.repub st.m e1
+  let (m2, mo2) := stepM st.repub m1 e2
+  let (s1, so1) := stepS st.repub st.s e1
+  let (s2, so2) := stepS st.repub s1 e2
+  emit { st with m := m2, s := s2 } none false (mo1 ++ mo2) (so1 ++ so2)
+
+/-- `hsrace <a> connect <fields> ; <b> <hex>`: two overlapping handshakes.  The harness holds
+connection `a` inside `Authenticate` (user name "slow…") while connection `b` sends its first packet
+(bytes, as in `rawfirst`, never closing by itself) and is observed to the end; then `a` is released.
+On the code as it is the two handshakes share nothing: `b`'s first packet (and what follows it in
+the same bytes), then `a`'s CONNECT - two events in this order, one output line. -/
+def handleHsRace (st : St) (ea : Ev) (b : Nat) (bs : Bytes) : St × String × String :=
+  match Mqtt.Model.Framing.firstEvent b rawAuth bs true with
+  | none => (st, "bad-op", "bad-op")
+  | some (eb, rest) =>
+    let accepted := (Mqtt.Model.Broker.step st.m eb).1.alive b
+    let (evs, rest') := if accepted then Mqtt.Model.Framing.postEvents ringSize b (rest.length + 1) rest else ([], [])
+    runRaw st b true ([eb] ++ evs ++ [ea]) rest'
+
 def handle (st : St) (ws : List String) : St × String × String :=
   match ws with
   | ["reset"] => ({}, "reset", "reset")
+  | "hsrace" :: a :: rest =>
+    let (af, bf) := splitSemi rest
+    match parseEv ("first" :: a :: af), bf with
+    | some ea, [b, hex] =>
+      match b.toNat?, unhex hex with
+      | some b, some bs => handleHsRace st ea b bs
+      | _, _ => (st, "bad-op", "bad-op")
+    | _, _ => (st, "bad-op", "bad-op")
+  | ["unsubrace", a, p, id, fs, topic, payload] =>
+    match a.toNat?, p.toNat?, id.toNat?, (fs.splitOn ",").mapM unhex, unhex topic, unhex payload with
+    | some a, some p, some id, some fs, some t, some pl => handleUnsubRace st a p id fs t pl
+    | _, _, _, _, _, _ => (st, "bad-op", "bad-op")
+  | ["srvsubrepub", cb, f, q, target] =>
+    match cb.toNat?, unhex f, q.toNat?, unhex target with
+    | some cb, some f, some q, some target =>
+      -- registered before the subscription is made: retained messages handed over by the
+      -- subscription itself are republished too
+      let rp := (cb, target) :: st.repub.filter (fun x => x.1 != cb)
+      let ev := Ev.srvSub cb f q
+      let (m, mo) := stepM rp st.m ev
+      let (s, so) := stepS rp st.s ev
+      emit { st with m := m, s := s, repub := rp } none false mo so
+    | _, _, _, _ => (st, "bad-op", "bad-op")
   | ["raw", c, hex] =>
     match c.toNat?, unhex hex with
     | some c, some bs => handleRaw st c bs
@@ -328,10 +455,10 @@ def handle (st : St) (ws : List String) : St × String × String :=
     let (a, b) := splitSemi rest
     match parseEv ("first" :: c :: a), parseEv ("pkt" :: c :: b) with
     | some e1, some e2 =>
-      let (m1, mo1) := Mqtt.Model.Broker.step st.m e1
-      let (m2, mo2) := Mqtt.Model.Broker.step m1 e2
-      let (s1, so1) := Mqtt.Spec.Broker.step st.s e1
-      let (s2, so2) := Mqtt.Spec.Broker.step s1 e2
+      let (m1, mo1) := stepM st.repub st.m e1
+      let (m2, mo2) := stepM st.repub m1 e2
+      let (s1, so1) := stepS st.repub st.s e1
+      let (s2, so2) := stepS st.repub s1 e2
       emit { st with m := m2, s := s2 } none false (mo1 ++ mo2) (so1 ++ so2)
     | _, _ => (st, "bad-op", "bad-op")
   | _ =>
@@ -344,8 +471,8 @@ def handle (st : St) (ws : List String) : St × String × String :=
         | .packet c _ => if st.mid c then some c else none
         | _ => none
       if midConn.isSome then (st, "bad-op", "bad-op") else
-      let (m, mo) := Mqtt.Model.Broker.step st.m ev
-      let (s, so) := Mqtt.Spec.Broker.step st.s ev
+      let (m, mo) := stepM st.repub st.m ev
+      let (s, so) := stepS st.repub st.s ev
       let st1 : St := { st with m := m, s := s }
       match ev with
       | .close c => emit (st1.setPend c []) (some c) false mo so
